@@ -173,3 +173,51 @@ mod tests {
         assert!(c.frame.is_some());
     }
 }
+
+// ---------------------------------------------------------------- R-expiry
+
+/// Per address: time of the last accepted frame and the number of accepted
+/// frames (of any aircraft) processed while it was stale.  Encodes only the
+/// bound the property states (12 frames), not the sweep period.
+#[derive(Clone, Debug, Default)]
+pub struct Expiry {
+    pub d: i64,
+    pub last: std::collections::BTreeMap<u32, i64>,
+    pub stale_frames: std::collections::BTreeMap<u32, u32>,
+}
+
+impl Expiry {
+    pub fn new(d: i64) -> Expiry {
+        Expiry { d, ..Default::default() }
+    }
+    pub fn is_stale(&self, addr: u32, now_us: i64) -> bool {
+        match self.last.get(&addr) {
+            Some(&t) => (now_us - t).div_euclid(1_000_000) >= self.d,
+            None => true,
+        }
+    }
+    /// An accepted frame of `addr` is processed at `t_us`.
+    pub fn accept(&mut self, addr: u32, t_us: i64) {
+        let stale: Vec<u32> = self.last.keys().copied().filter(|&a| a != addr && self.is_stale(a, t_us)).collect();
+        for a in stale {
+            *self.stale_frames.entry(a).or_insert(0) += 1;
+        }
+        self.last.insert(addr, t_us);
+        self.stale_frames.remove(&addr);
+    }
+    /// A new connection starts: the implementation's sweep counter restarts; the
+    /// 12-frame bound is only judged within one connection.
+    pub fn reconnect(&mut self) {
+        self.stale_frames.clear();
+    }
+    pub fn must_be_present(&self, now_us: i64) -> Vec<u32> {
+        self.last.keys().copied().filter(|&a| !self.is_stale(a, now_us)).collect()
+    }
+    pub fn must_be_absent(&self, now_us: i64) -> Vec<u32> {
+        self.last.keys().copied().filter(|&a| self.is_stale(a, now_us) && self.stale_frames.get(&a).copied().unwrap_or(0) >= 12).collect()
+    }
+    pub fn forget(&mut self, addr: u32) {
+        self.last.remove(&addr);
+        self.stale_frames.remove(&addr);
+    }
+}
